@@ -7,7 +7,7 @@ root, spec = sys.argv[1], json.load(open(sys.argv[2]))
 for key, (tier, how, strengthened) in sorted(spec.items()):
     src = os.path.join(root, key)
     pid, k = key.split('/')
-    sid = "%s-%s" % (pid, k)
+    sid = "%s-%s" % (pid, k) if len(sys.argv) < 4 else "%s-%s" % (pid, int(k) + int(sys.argv[3]))
     conf = open(os.path.join(src, 'confirm.txt')).read().strip().split("\n")
     ok = (conf[0] == 'patch: applies' and '105 passed' in conf[1] and conf[2].endswith('exit 1') and conf[3].endswith('exit 0'))
     if not ok:
